@@ -405,6 +405,15 @@ func (fv *FuncVC) pointeeKeys(args []Val) []string {
 		if p, ok := a.T.Underlying().(*types.Pointer); ok {
 			keys = append(keys, fv.allKeysOfType(p.Elem(), map[types.Type]bool{})...)
 		}
+		// a pointer handed over inside an interface value (json.Unmarshal(data, v any)): the dynamic type is known when
+		// the value was boxed in the caller
+		if _, ok := a.T.Underlying().(*types.Interface); ok && len(a.C) == 2 {
+			if dt, ok := fv.typeByID[a.C[0]]; ok {
+				if p, ok := dt.Underlying().(*types.Pointer); ok {
+					keys = append(keys, fv.allKeysOfType(p.Elem(), map[types.Type]bool{})...)
+				}
+			}
+		}
 	}
 	return keys
 }
